@@ -33,6 +33,9 @@ def name_atom(term, hdr_size, full_size):
     if term[0] != 't':
         return None
     op = term[1]
+    if op == 'Not':
+        inner = name_atom(term[2][0], hdr_size, full_size)
+        return (inner[0], not inner[1]) if inner is not None else None
     # the nix wrappers return Result: Err exactly when the libc call reports failure
     if op == 'discr' and term[2][0][0] == 't' and term[2][0][1] == 'call' and term[2][0][2][0].startswith('nix::'):
         last = term[2][0][2][0].split('::')[-1]
